@@ -10,6 +10,8 @@
   quara/minimization_algorithm/projected_gradient_descent_backtracking.py
       ProjectedGradientDescentBacktracking._is_doing_for_alpha                        -> gen_is_doing_for_alpha
       ProjectedGradientDescentBacktracking.optimize                                   -> gen_bt_body, gen_bt_locals, gen_bt_for, gen_bt_optimize
+      (+ the code before the loop: start point and step parameter from the options       -> gen_bt_start, gen_bt_mu; likewise gen_mom_start, gen_mom_gamma,
+         gen_fista_start, gen_fista_delta; np.sqrt on naturals -> sqn)
   quara/minimization_algorithm/projected_gradient_descent_with_momentum.py
       ProjectedGradientDescentWithMomentum.optimize                                   -> gen_mom_body, gen_mom_for, gen_mom_optimize
   quara/minimization_algorithm/projected_fast_iterative_shrinkage_thresholding_algorithm.py
@@ -278,6 +280,98 @@ def history_only(stmts):
         if isinstance(st, ast.Return):
             continue
         fail(st, "statement in a history / logging block touches something else than history variables")
+
+
+# ------------------------------------------------------------------ the if/elif chains BEFORE the loop (start point, step parameter)
+PRE_PARAM = {"bt": ("mu", "mu"), "mom": ("gamma", "r"), "fista": ("delta", "delta")}          # assigned variable, option attribute it is built from
+
+
+def pre_atom(t, optattr):
+    """one conjunct of a chain test -> (Coq bool, set of facts it establishes)"""
+    src = ast.unparse(t)
+    if src == "algorithm_option." + optattr:
+        return "(C10_truthy F %s)" % optattr, {"opt"}
+    if src == "algorithm_option.%s is None" % optattr:
+        return "(match %s with None => true | Some _ => false end)" % optattr, set()
+    if src == "algorithm_option.var_start is not None":
+        return "(match vs with Some _ => true | None => false end)", {"vs"}
+    if src == "algorithm_option.var_start is None":
+        return "(match vs with Some _ => false | None => true end)", set()
+    if src == "self._qt":
+        return "(match qt with Some _ => true | None => false end)", {"qt"}
+    fail(t, "test atom %s" % src)
+
+
+def pre_value(e, optattr, facts):
+    """numeric expression of a chain branch -> Coq term of type F"""
+    src = ast.unparse(e)
+    if src == "algorithm_option." + optattr:
+        if "opt" not in facts:
+            fail(e, "the option value is used in a branch that does not test it")
+        return "(C10_getF F %s)" % optattr
+    if isinstance(e, ast.Constant) and isinstance(e.value, int) and not isinstance(e.value, bool) and 0 <= e.value <= 64:
+        return {1: "(c1 F)", 2: "(C10_two F)", 3: "(C10_three F)", 10: "(C10_ten F)"}.get(e.value, "(C10_ofnat F %d)" % e.value)
+    if src == "np.sqrt(len(algorithm_option.var_start))":
+        if "vs" not in facts:
+            fail(e, "len(var_start) in a branch that does not test var_start")
+        return "(sqn (match vs with Some l_ => l_ | None => O end))"
+    if src == "np.sqrt(self._qt.num_variables)":
+        if "qt" not in facts:
+            fail(e, "self._qt.num_variables in a branch that does not test self._qt")
+        return "(sqn (match qt with Some m_ => m_ | None => O end))"
+    if isinstance(e, ast.BinOp) and type(e.op) in (ast.Mult, ast.Div):
+        return "(%s F %s %s)" % ("cmul" if isinstance(e.op, ast.Mult) else "kdiv", pre_value(e.left, optattr, facts), pre_value(e.right, optattr, facts))
+    fail(e, "expression %s" % src)
+
+
+def tr_pre(tag, pre):
+    """the start point and the step parameter as functions of the options; every other top-level statement before the loop is checked elsewhere
+    (initialisations) or is validation (raise on missing value / gradient)"""
+    target, optattr = PRE_PARAM[tag]
+    start = param = None
+    for st in pre:
+        if not isinstance(st, ast.If):
+            continue
+        assigned = {t.id for sub in ast.walk(st) for a in ([sub] if isinstance(sub, ast.Assign) else []) for t in a.targets if isinstance(t, ast.Name)}
+        if assigned == {"x_prev"}:
+            want_else = "x_prev = algorithm_option.var_start"
+            want_then = "x_prev = self._qt.generate_empty_estimation_obj_with_setting_info().generate_origin_obj().to_var()"
+            if not (ast.unparse(st.test) == "algorithm_option.var_start is None" and [ast.unparse(x) for x in st.body] == [want_then]
+                    and [ast.unparse(x) for x in st.orelse] == [want_else]) or start is not None:
+                fail(st, "start-point statement")
+            start = "Definition gen_%s_start (var_start origin : option vec) : option vec := match var_start with None => origin | Some v_ => Some v_ end." % tag
+        elif assigned == {target}:
+            if param is not None:
+                fail(st, "%s is assigned by two statements" % target)
+            cur, arms = st, []
+            while True:
+                conj = cur.test.values if isinstance(cur.test, ast.BoolOp) and isinstance(cur.test.op, ast.And) else [cur.test]
+                tests, facts = [], set()
+                for c in conj:
+                    t, fs = pre_atom(c, optattr)
+                    tests.append(t); facts |= fs
+                if not (len(cur.body) == 1 and isinstance(cur.body[0], ast.Assign) and ast.unparse(cur.body[0].targets[0]) == target):
+                    fail(cur, "a branch must be `%s = <expr>`" % target)
+                arms.append((" && ".join(tests), "Some %s" % pre_value(cur.body[0].value, optattr, facts)))
+                if len(cur.orelse) == 1 and isinstance(cur.orelse[0], ast.If):
+                    cur = cur.orelse[0]
+                    continue
+                if not (len(cur.orelse) == 1 and isinstance(cur.orelse[0], ast.Raise)):
+                    fail(cur, "the chain must end with raise")
+                break
+            term = "None"
+            for c, v in reversed(arms):
+                term = "if %s then %s\n    else %s" % (c, v, term)
+            param = "Definition gen_%s_%s (%s : option F) (vs qt : option nat) : option F :=\n    %s." % (tag, target, optattr, term)
+        elif assigned & {"x_prev", target}:
+            fail(st, "x_prev / %s assigned together with something else" % target)
+    if start is None or param is None:
+        fail(pre[0], "start point / %s chain not found before the loop" % target)
+    # no other statement before the loop may assign them
+    for st in pre:
+        if isinstance(st, ast.Assign) and any(isinstance(t, ast.Name) and t.id in ("x_prev", target) for t in st.targets):
+            fail(st, "unconditional assignment to x_prev / %s before the loop" % target)
+    return start + "\n" + param
 
 
 def tr_optimize(tag, fdef):
@@ -590,7 +684,7 @@ Fixpoint gen_%(t)s_for (mode : C10_mode) (h fuel : nat) %(pb)s (rem k : nat) (s 
 Definition gen_%(t)s_optimize (mode : C10_mode) (h fuel : nat) %(pb)s (max_iteration : nat) %(ib)s : gen_%(t)s_result :=
   gen_%(t)s_for mode h fuel %(pn)s max_iteration 1 (%(it)s).""" % dict(t=tag, pb=pbind, pn=pnames, pat=pat, args=" ".join(nm for nm, _ in state),
                                                                     ib=" ".join(init_binders), it=", ".join(init_tuple))
-    return "\n\n".join(x for x in (gen_body, gen_locals, skeleton) if x)
+    return "\n\n".join(x for x in (tr_pre(tag, pre), gen_body, gen_locals, skeleton) if x)
 
 
 # ------------------------------------------------------------------ the decision function
@@ -872,7 +966,7 @@ Import ListNotations.
 Section Gen_c10.
 Context (F : OF).
 Notation vec := (@vec F).
-Variables (sq : F -> F) (mag : F -> Z) (z0 : F) (n : nat) (f : vec -> F) (g P : vec -> vec).
+Variables (sq : F -> F) (sqn : nat -> F) (mag : F -> Z) (z0 : F) (n : nat) (f : vec -> F) (g P : vec -> vec).
 
 (* while c a: a = b a   with explicit fuel; out of fuel: the current value (the model's convention) *)
 Fixpoint gen_while (fuel : nat) (c : F -> bool) (b : F -> F) (a : F) : F :=
